@@ -13,6 +13,7 @@ import (
 	"io"
 	"sync/atomic"
 	"testing"
+	"time"
 
 	"github.com/gotid/god/lib/load"
 	"github.com/gotid/god/lib/logx"
@@ -61,8 +62,33 @@ type c09Outcome struct {
 	panic bool
 }
 
+var c09CtxKinds = []string{"live", "live", "live", "cancelled-on-arrival", "cancelled-mid-call", "cancelled-after-handler", "deadline-expired-on-arrival", "deadline-cancelled-mid-call"}
+
+func c09Ctx(kind string) (ctx context.Context, mid, after func(), cleanup func()) {
+	nop := func() {}
+	switch kind {
+	case "cancelled-on-arrival":
+		c, cancel := context.WithCancel(context.Background())
+		cancel()
+		return c, nop, nop, nop
+	case "cancelled-mid-call":
+		c, cancel := context.WithCancel(context.Background())
+		return c, cancel, nop, cancel
+	case "cancelled-after-handler":
+		c, cancel := context.WithCancel(context.Background())
+		return c, nop, cancel, cancel
+	case "deadline-expired-on-arrival":
+		c, cancel := context.WithDeadline(context.Background(), time.Unix(1, 0))
+		return c, nop, nop, cancel
+	case "deadline-cancelled-mid-call":
+		c, cancel := context.WithTimeout(context.Background(), time.Hour)
+		return c, cancel, nop, cancel
+	}
+	return context.Background(), nop, nop, nop
+}
+
 func TestVerifC09SheddingInterceptor(t *testing.T) {
-	m := vk.New(t, "C09", "seeded calls through UnarySheddingInterceptor with a scripted Shedder (admit/reject) and 8 handler outcomes (nil, context.DeadlineExceeded, wrapped deadline, gRPC DeadlineExceeded status, Canceled, io.EOF, Unavailable status, panic); per call: Allow once; rejected => handler not run, error returned, no promise call; admitted => handler run once and exactly one of Pass/Fail reported when the interceptor returns or panics")
+	m := vk.New(t, "C09", "seeded calls through UnarySheddingInterceptor with a scripted Shedder (admit/reject) and 8 handler outcomes (nil, context.DeadlineExceeded, wrapped deadline, gRPC DeadlineExceeded status, Canceled, io.EOF, Unavailable status, panic) x 6 call-context states (live, cancelled on arrival / mid-call / after the handler, deadline expired, deadline context cancelled mid-call); per call: Allow once; rejected => handler not run, error returned, no promise call; admitted => handler run once and exactly one of Pass/Fail reported when the interceptor returns or panics")
 	defer m.Done()
 	logx.Disable()
 	metrics := stat.NewMetrics("c09-verif")
@@ -88,21 +114,27 @@ func TestVerifC09SheddingInterceptor(t *testing.T) {
 		if !m.Only(idx) {
 			continue
 		}
-		desc := fmt.Sprintf("case=%d;{\"admit\":%v,\"handler\":%q}", idx, admit, oc.name)
+		ctxKind := c09CtxKinds[r.Intn(len(c09CtxKinds))]
+		class := oc.name + "/ctx-" + ctxKind
+		desc := fmt.Sprintf("case=%d;{\"admit\":%v,\"handler\":%q,\"call_context\":%q}", idx, admit, oc.name, ctxKind)
+		cctx, mid, after, cleanup := c09Ctx(ctxKind)
 		sh := &c09ScriptShedder{admit: admit}
 		var served int64
 		ic := UnarySheddingInterceptor(sh, metrics)
 		var resp any
 		var err error
 		_, panicked := vk.Recover(func() {
-			resp, err = ic(context.Background(), "req", &grpc.UnaryServerInfo{FullMethod: "/c09/verif"}, func(ctx context.Context, req any) (any, error) {
+			resp, err = ic(cctx, "req", &grpc.UnaryServerInfo{FullMethod: "/c09/verif"}, func(ctx context.Context, req any) (any, error) {
 				atomic.AddInt64(&served, 1)
+				mid()
+				defer after()
 				if oc.panic {
 					panic("c09 handler panic")
 				}
 				return "resp", oc.err
 			})
 		})
+		cleanup()
 		if panicked {
 			panics++
 		}
@@ -137,7 +169,7 @@ func TestVerifC09SheddingInterceptor(t *testing.T) {
 				bad = true
 			}
 			if sh.passes+sh.fails != 1 || sh.dup != 0 {
-				m.Violate("C09:rpc:promise-not-reported-exactly-once", desc, "admitted call (handler %s, panicked=%v): Pass=%d Fail=%d duplicate reports=%d", oc.name, panicked, sh.passes, sh.fails, sh.dup)
+				m.Violate("C09:rpc:promise-not-reported-exactly-once", desc, "admitted call (handler %s, panicked=%v): Pass=%d Fail=%d duplicate reports=%d", class, panicked, sh.passes, sh.fails, sh.dup)
 				bad = true
 			}
 			out := "pass"
@@ -145,16 +177,17 @@ func TestVerifC09SheddingInterceptor(t *testing.T) {
 				out = "fail"
 			}
 			mapping[fmt.Sprintf("admitted_%s_%s", oc.name, out)]++
+			mapping[fmt.Sprintf("admitted_ctx-%s_%s", ctxKind, out)]++
 			// the report must be a function of the request's own outcome: the same
 			// handler outcome may not be reported differently depending on earlier requests
-			if first, seen := verdict[oc.name]; !seen {
-				verdict[oc.name] = out
+			if first, seen := verdict[class]; !seen {
+				verdict[class] = out
 			} else if first != out && sh.passes+sh.fails == 1 {
-				m.Violate("C09:rpc:report-depends-on-earlier-request", desc, "handler outcome %s was reported as %s by earlier identical requests and as %s now (previous request: %s)", oc.name, first, out, prev)
+				m.Violate("C09:rpc:report-depends-on-earlier-request", desc, "handler outcome %s was reported as %s by earlier identical requests and as %s now (previous request: %s)", class, first, out, prev)
 				bad = true
 			}
 		}
-		m.Case(vk.Digest(admit, oc.name), !bad)
+		m.Case(vk.Digest(admit, class), !bad)
 		prev = desc
 		if m.WantSample() && idx%7 == 1 {
 			m.Sample(map[string]any{"scenario": desc, "allow_calls": sh.allows, "handler_runs": served, "pass": sh.passes, "fail": sh.fails, "err": fmt.Sprint(err), "panicked": panicked})
